@@ -24,6 +24,10 @@ pub mod channel { pub mod mpsc {
             q.push(msg); Ok(())
         }
         pub fn same_receiver(&self, other: &Self) -> bool { Arc::ptr_eq(&self.inner, &other.inner) }
+        /// harness-only: number of queued messages
+        pub fn len(&self) -> usize { unsafe { (&*self.inner.q.get()).len() } }
+        pub fn is_closed(&self) -> bool { unsafe { *self.inner.closed.get() } }
+        pub fn close_channel(&mut self) { unsafe { *self.inner.closed.get() = true; } }
     }
     impl<T> Receiver<T> {
         pub fn try_next(&mut self) -> Result<Option<T>, TryRecvError> {
